@@ -13,20 +13,21 @@ STALE_RE = re.compile(r"op (\d+) (IFM2?): byte (\d+) of region (\d+): expected t
 
 def classify_tagged(msg, metas):
     """Known-finding key for a C03 rejection, or None.
-    DESIGN.md section 8 #7: in a cascade, a consumer whose top padding exceeds (dilated kernel - stride)
-    makes the producer run one stripe further than the rolling buffer was sized for, so the consumer
-    finds a *later* row of the same tensor in the slot (same tensor id, different delta)."""
+    DESIGN.md section 8 #7 / design.d/C10.md: in a cascade, a consumer whose IFM box over-reads by more than
+    1 + the round-up slack of the rolling buffer (exact inequality of Props/C10 `rolling_sufficient_of_slack`:
+    stride + skirt_top + skirt_bottom - k_dil > 1 + (B - p - c), with B = round_up(p + c, c)) makes the producer run
+    one stripe further than the buffer was sized for, so the consumer finds a *later* row of the same tensor in the
+    slot (same tensor id, different delta).  The earlier condition `pad_top > k_dil - stride` was neither necessary
+    nor sufficient."""
+    import c10_lib
+
     m = STALE_RE.search(msg)
     if not m:
         return None
     idx = int(m.group(1))
     if m.group(5) != m.group(7) or idx >= len(metas):
         return None
-    meta = metas[idx]
-    if not meta.get("cascade"):
-        return None
-    kdil = (meta["k_h"] - 1) * meta["dil_y"] + 1
-    if meta["pad_top"] > kdil - meta["stride_y"]:
+    if c10_lib.rolling_defect(idx, metas):
         return "cascade-rolling-buffer-stale-row:pad_top>kdil-stride"
     return None
 
